@@ -21,19 +21,19 @@ def S(t):
     return 'path-complete symbolic execution of the macro\'s MIR over a lazily initialised symbolic input AST, obligations discharged by z3; ' + t
 
 CLAIMED = {
- 'C01': ('model_checking', 'For a generated fn/mod corpus Kani/CBMC decides for every argument tuple and application state that the trait call traces exactly one call of the own function with the receiver as dependency, arguments in declared order and the direct-call result (X). For all fn/mod inputs within the AST bounds the delegating body is `f(self, p1..pn)[.await]` with the generated parameter names in order, own function name, receiver shape per dependency kind (S). A corpus program whose expansion rustc rejects with a coded error is a violation (no method to call).',
+ 'C01': ('model_checking', 'For a generated fn/mod corpus Kani/CBMC decides for every argument tuple and application state that the trait call traces exactly one call of the own function with the receiver as dependency, arguments in declared order and the direct-call result (X). For all fn/mod inputs within the AST bounds the delegating body is `f(self, p1..pn)[.await]` with the generated parameter names in order, own function name, receiver shape per dependency kind (S). A corpus program whose expansion rustc rejects with a coded error is a violation (no method to call); the corpus includes parameters spelled like the fn before / after every pattern kind and an entraited fn in a block scope next to a same-named module-level fn.',
          X_NOTE + ' ' + S_NOTE, X('call shape per input program decided by symbolic execution of the macro (S)'), 'X+S'),
  'C02': ('other', 'For all fn/mod/impl inputs within the bounds the expansion starts with / contains the input tokens unaltered and in order, generated items only after them (S, back end on AST inputs and front end on symbolic token lists through entrait\'s own item parsers incl. what Input::parse consumes before dispatching). X: reference twins (f == f_ref for all arguments), marker attribute applied exactly once, unsafe fn stays unsafe.',
          S_NOTE + ' ' + X_NOTE, S('item parsers run over symbolic token lists; Kani twins/markers'), 'S+X'),
- 'C03': ('other', 'Type-identity half: for all signatures within the bounds the generated method signature equals the input signature under exactly the documented rewrites (receiver, type parameters lifted, dependency predicates removed, patterns -> names, async rewrite), identical in trait and impl (S). X: fn-pointer coercion witnesses and compilation of the whole generated corpus are rustc-decided. NOT decided: that every supported signature compiles (borrow checking over an unbounded type language).',
+ 'C03': ('other', 'Type-identity half: for all signatures within the bounds the generated method signature equals the input signature under exactly the documented rewrites (receiver, type parameters lifted, dependency predicates removed, patterns -> names, async rewrite), identical in trait and impl; trait and impl headers only name lifetimes they declare (lifetime parameters stay on the method) (S). X: fn-pointer coercion witnesses and compilation of the whole generated corpus are rustc-decided. NOT decided: that every supported signature compiles (borrow checking over an unbounded type language).',
          S_NOTE + ' rustc decides the coercion witnesses.', S('signature identity; rustc-decided coercion witnesses'), 'S+X'),
- 'C04': ('other', 'For all ways of declaring <=k dependency bounds (inline / where / impl A+B / split / several module fns), by-ref and by-value deps and all mock settings within the bounds: impl where-clause = exactly the declared bounds, `EntraitT: Sync [+ Send] + \'static`, self type T iff no mock derivation else Impl<T> (S, option values symbolic). X: availability probes for application types each missing one bound / auto trait (rustc-decided constants asserted under Kani).',
+ 'C04': ('other', 'For all ways of declaring <=k dependency bounds (inline / where / impl A+B / split / several module fns), by-ref and by-value deps and all mock settings within the bounds: impl where-clause = exactly the declared bounds, `EntraitT: Sync [+ Send] + \'static`, self type T iff no mock derivation else Impl<T> (S, option values symbolic). Bounds of several fns that share a last path segment without being the same trait (`B0`, `ma::B0`, `B0<u8>`) stay distinct (S, lazily shaped bounds). X: availability probes for application types each missing one bound / auto trait (rustc-decided constants asserted under Kani).',
          S_NOTE, S('bound sets and self type; availability probes rustc-decided'), 'S+X'),
- 'C05': ('model_checking', 'Kani/CBMC over expansions of concrete-dependency functions (type shapes ident/path/generic/tuple/array/&\'static): C itself, Impl<C> and a hand-written impl behind Impl<App> - also one written in a sibling module of the library (README Case 1, pub / pub(crate) trait) - traced for all argument values (X). Classification of dependency type shapes as concrete, impl target, nested entrait attribute (S).',
+ 'C05': ('model_checking', 'Kani/CBMC over expansions of concrete-dependency functions (type shapes ident/path/generic/tuple/array/&\'static): C itself, Impl<C> and a hand-written impl behind Impl<App> - also one written in a sibling module of the library (README Case 1, pub / pub(crate) trait) - traced for all argument values, also with a named lifetime parameter on the dependency reference; every compile failure of the corpus is a violation (X). Classification of dependency type shapes as concrete, concrete shapes accepted, impl target, nested entrait attribute, and the leaf-trait expansion (default selector, method lifetimes, async) forwarding to T (S).',
          X_NOTE + ' ' + S_NOTE, X('concrete-type classification by S'), 'X+S'),
  'C06': ('model_checking', 'Kani/CBMC over entraited traits for default/ref/Borrow selectors with two providers: every call forwarded once to the selected provider, arguments in order, result unchanged, for all argument values (X). Forwarding call shape, where-clause on T per selector, impl header for all trait shapes within the bounds (S).',
          X_NOTE + ' ' + S_NOTE, X('call shapes / provider bounds by S'), 'X+S'),
- 'C07': ('model_checking', 'Kani/CBMC over dependency-inversion programs (static Selector, dynamic ref, two competing targets incl. same-named path targets, implementation fns using further deps): selected block reached once with the same &Impl<T>, never the other (X). Delegation-target trait, selector trait, impl-block expansion and call shapes for all inputs within the bounds (S).',
+ 'C07': ('model_checking', 'Kani/CBMC over dependency-inversion programs (static Selector, dynamic ref and Borrow - the application also offers the conversion that was NOT selected, leading to the other target -, two competing targets incl. same-named path targets, implementation fns using further deps incl. two traits with the same last path segment): selected block reached once with the same &Impl<T>, never the other (X). Delegation-target trait, selector trait, impl-block expansion and call shapes for all inputs within the bounds (S).',
          X_NOTE + ' ' + S_NOTE, X('impl-block / delegation-target shapes by S'), 'X+S'),
  'C08': ('other', 'Module bodies as symbolic token lists run through entrait\'s own ModItem parser: the items that become trait methods are exactly the visible fns with a body, in source order, compared with a reference classification written from the property (S front end); trait visibility inside the module and re-export (S back end). X: module with every qualifier combination and foreign items, each method traced to its own fn.',
          S_NOTE, S('item classification over symbolic token lists; Kani routing'), 'S+X'),
@@ -41,13 +41,13 @@ CLAIMED = {
          S_NOTE, S('trait-preservation obligations'), 'S'),
  'C10': ('other', 'Full option lattice with symbolic option values x 4 macro entry points x fn/mod/trait: mock derivation present iff enabled (and named for fn/mod), wrapped in cfg_attr(test, ..) iff not exporting, explicit false wins (S). X: `Unimock: Trait` probes in non-test and cfg(test) builds with the unimock feature.',
          S_NOTE, S('option lattice with solver-valued options'), 'S+X'),
- 'C11': ('other', 'Attribute-argument half only: unimock path / prefix / api name and shape / unmock_with entries per method in trait-method order (f, _, f(a,b,..)), omitted for entraited traits (S). NOT decided: the runtime half (mocked / un-mocked calls) - the unimock runtime cannot be compiled by Kani 0.68 (ICE).',
-         S_NOTE, S('unimock attribute parameters'), 'S'),
+ 'C11': ('other', 'Attribute-argument half only: unimock path / prefix / api name and shape / unmock_with entries per method in trait-method order (f, _, f(a,b,..)), omitted for entraited traits; no parameter of a TRAIT method is spelled like the fn the un-mock call must reach (S). X (compile only, no Kani): a corpus of mock_api functions / modules / traits incl. parameters spelled like their fn and patterns is type-checked by rustc in a cfg(test) build with the unimock feature, so that the code unimock generates from those arguments is checked against the original functions. NOT decided: the runtime half (mocked / un-mocked calls) - the unimock runtime cannot be compiled by Kani 0.68 (ICE).',
+         S_NOTE + ' rustc type-checks the compile-only corpus.', S('unimock attribute parameters; rustc-decided compile-only corpus'), 'S+X'),
  'C12': ('other', 'Async rewrite `-> impl ::core::future::Future<Output = R> [+ ::core::marker::Send]`, Send iff not ?Send, async_trait kept and re-applied to trait / delegation-target trait / impls, `.await` iff async, for fn/mod/trait/impl inputs within the bounds (S). X: futures driven to completion with symbolic arguments, is_send / Output ascription / Rc-under-?Send witnesses rustc-decided.',
          S_NOTE + ' ' + X_NOTE, S('return-type rewrite; Kani completion + rustc witnesses'), 'S+X'),
  'C13': ('other', 'Emitted visibility tokens: fn mode = requested node independent of the fn\'s; module mode pub(super) iff none requested, re-export carries the requested node; delegation-target trait copies the trait\'s for every written target visibility x trait visibility x ref/Borrow/custom delegation; parsing of the visibility before the trait name (S). NOT decided: that rustc then rejects outside uses.',
          S_NOTE, S('visibility nodes'), 'S+X'),
- 'C14': ('model_checking', 'Kani with std::alloc::alloc stubbed by a counter: direct call and trait call perform the same number of allocations (sync/async chains, lifetimes, impl Trait return, module, entraited trait, static inversion) for symbolic arguments; positive control (X). No macro-originated dyn/Box token on static-delegation paths (S).',
+ 'C14': ('model_checking', 'Kani with std::alloc::alloc stubbed by a counter: direct call and trait call perform the same number of allocations (sync/async chains, lifetimes, several-bound dependencies, impl Trait return, module, entraited trait also with method lifetimes, static inversion) for symbolic arguments; positive control (X). No macro-originated dyn/Box token on static-delegation paths (S).',
          X_NOTE + ' -Z stubbing of std::alloc::alloc. ' + S_NOTE, X('allocation counter via stubbing; token-level check by S'), 'X+S'),
  'C15': ('other', 'No feasible path from any modelled entry point (back ends on symbolic ASTs, attribute and item parsers on symbolic token lists) ends in a panic; documented misuses end in Err with their message and a span at an input token; unknown / unsupported options rejected (S). NOT decided: "never emits tokens that fail to parse" for arbitrary inputs.',
          S_NOTE, S('panic reachability and diagnostics'), 'S'),
@@ -59,7 +59,7 @@ CLAIMED = {
          S_NOTE, S('attribute placement'), 'S+X'),
  'C19': ('other', 'Every macro-originated identifier in every mode / delegation kind is a keyword, a reserved name, an attribute key, a method name after `.`, or a segment of a path rooted at ::entrait / ::core / ::mockall (S). X: corpus in a hostile scope (no imports, local items named Impl/Future/AsRef/Borrow/Box/core/entrait, traits named Sync/Send) compiles and behaves.',
          S_NOTE, S('path-root oracle over token origins'), 'S+X'),
- 'C20': ('other', 'Within the bounds no feasible path of the macro reaches an impure primitive (static, thread-local, env, clock, fs, randomness, atomics, hash-order iteration) and no unmodelled callee is assumed pure (S); replay: sampled invocations expanded twice in one process, in a fresh process and in reversed order give identical tokens. NOT decided: nondeterminism inside rustc/syn/quote.',
+ 'C20': ('other', 'Within the bounds no feasible path of the macro reaches an impure primitive (static, thread-local, env, clock, fs, randomness, atomics, hash-order iteration) and no unmodelled callee is assumed pure - identifier spellings symbolic, so that the rename branches are reachable (S); replay: sampled invocations, every input that drives a path into an impure primitive, and fixed multi-bound / renamed-parameter / generic-trait invocations expanded twice in one process, in a fresh process and in reversed order give identical tokens. NOT decided: nondeterminism inside rustc/syn/quote.',
          S_NOTE, S('impure-primitive reachability; determinism replay'), 'S'),
 }
 
